@@ -13,6 +13,26 @@ CLAIMS = {
   note="Trusted: clang 14 AST/CFG of the instantiation unit tu/locks.cpp; witness Mutex type stands for any mutex type. "
        "Path-sensitive over the ownership flag only.",
   design_ref="DESIGN.md §3 C12, §2 G/S/A"),
+ "C05": dict(
+  technique="static analysis: interprocedural lockset / RAII-guard typestate over the event CFG; lock-order graph",
+  text="Decides the lockset half of C05 for every slab_pool member in three policy instantiations: (L1) every call that "
+       "reaches Policy::map/unmap, directly or through pool helpers, is made with a definitely empty lockset; (L2) the "
+       "bucket fields, the per-slab free list/reservation count, the page counter and the frame tree are only touched "
+       "with their mutex held (unpublished objects excepted); (L3) mutexes are taken only through RAII guards; (L4) the "
+       "lock-order graph is acyclic (thorough also analyses the FRG_SLAB_TRACK_REGIONS configuration). It does not "
+       "decide linearizability, full race freedom or progress.",
+  note="Trusted: clang AST/CFG; guard semantics as verified by rule G (C12); alias-free access paths (one `this`, locals "
+       "initialised once). L2 table is frozen from the source comments and confirmed at each access.",
+  design_ref="DESIGN.md §3 C05, §2 L1-L4"),
+ "C04": dict(
+  technique="static analysis: fallible-result typestate (untested/null/non-null) on every map/_construct_*/allocate call site",
+  text="Every failure point is a call site, every recovery a CFG path: each Policy::map result, each _construct_slab/"
+       "_construct_large result in allocate() and the copying-fallback allocate() in realloc() must be bound to a local, "
+       "tested before any other use, and on the null arm the function returns null with no call and no write to non-local "
+       "state; locks are RAII-only so none can stay held. New map call sites join the obligation set automatically. "
+       "Not decided: that later requests succeed.",
+  note="Trusted: clang AST/CFG. Intraprocedural per failure point; the empty lockset at the failing call is C05/L1.",
+  design_ref="DESIGN.md §3 C04, §2 N"),
 }
 
 NOT_YET = "check not built yet in this revision (see DESIGN.md §7 order of work); not claimed until it exists"
